@@ -295,6 +295,28 @@ theorem reachAny_of_reach {h : Heap} (hr : Reach h) : ReachAny h := by
   | mutate op _ _ _ _ ih => exact .mutate op ih
   | derive op _ ih => exact .derive op ih
 
+/-- a run of `add_record` calls (which stops at the first refusal) is a sequence of deriving steps -/
+theorem reachAny_addRecords (c : Nat) : ∀ (rs : List Nat) (h : Heap), ReachAny h → ReachAny (h.addRecords c rs).1
+  | [], _, hr => hr
+  | r :: rest, h, hr => by
+    unfold Heap.addRecords
+    have s1 : ReachAny (h.addRecord c r).1 := ReachAny.derive (.addRecord c r) hr
+    generalize h.addRecord c r = res at s1
+    obtain ⟨h1, e⟩ := res
+    cases e with
+    | error err => exact s1
+    | ok nr => exact reachAny_addRecords c rest h1 s1
+
+/-- `ProvDocument(records=…)`: a fresh document filled by `add_record` -/
+theorem reachAny_constructDoc {h : Heap} (hr : ReachAny h) (rs : List Nat) :
+    ReachAny (((h.allocCont true none [] none).1).addRecords (h.allocCont true none [] none).2 rs).1 :=
+  reachAny_addRecords _ rs _ (ReachAny.mutate (.newDoc []) hr)
+
+/-- `ProvBundle(records=…, identifier=…)`: a fresh stand-alone bundle filled by `add_record` -/
+theorem reachAny_constructBundle {h : Heap} (hr : ReachAny h) (ident : Option QName) (rs : List Nat) :
+    ReachAny (((h.allocCont false ident [] none).1).addRecords (h.allocCont false ident [] none).2 rs).1 :=
+  reachAny_addRecords _ rs _ (ReachAny.mutate (.newBundle ident [] none) hr)
+
 /-- **C18, every history**: every container of every reachable state is coherent -/
 theorem c18_reachAny_wf {h : Heap} (hr : ReachAny h) : WF h := by
   induction hr with
